@@ -293,6 +293,12 @@ def build_instance(prep, ob, inst, wd):
         raise Inconclusive('ir2c: ' + e[-2000:])
     art['gen'] = gen
     art['stats'] = json.load(open(stats))
+    # external data the translator had to zero-initialise: only objects whose zero state is the real initial state
+    # (cpd, stdio handles assigned by the harness, vtables/typeinfo of classes whose virtuals are never called) are acceptable
+    bad = [g for g in art['stats']['ext_globals'] if not re.match(r'^@(cpd|stdout|stderr|stdin|__dso_handle|_ZTV\w+|_ZTI\w+|_ZTS\w+|environ)$', g)
+           and g.lstrip('@') not in ob.get('zero_ok', [])]
+    if bad:
+        raise Inconclusive('external data left without its real initialiser (would be modelled as zero): ' + ', '.join(bad[:8]))
     art['closure_ll'] = opt
     art['translate_s'] = time.time() - t0
     if art['stats']['unmodelled']:
